@@ -2,6 +2,7 @@ package main
 
 import (
 	"fmt"
+	"os"
 	"runtime/debug"
 	"strings"
 
@@ -21,6 +22,7 @@ func runPath(P *Prog, sol, alt *Solver, root Root, prefix []Dec, wantWitness boo
 		funcsSeen: map[string]bool{},
 		maxSteps:  root.MaxSteps,
 		maxDecs:   root.MaxDecs,
+		trace:     os.Getenv("GOSYM_TRACE") != "",
 	}
 	if e.maxSteps == 0 {
 		e.maxSteps = 3000000
@@ -111,7 +113,7 @@ func runPath(P *Prog, sol, alt *Solver, root Root, prefix []Dec, wantWitness boo
 		pr.Failure = r
 		pr.Reason = r.Kind + ": " + r.Msg + " @" + r.Site
 	case *pathAbort:
-		if r.kind == "infeasible" {
+		if r.kind == "infeasible" || r.kind == "pruned" {
 			pr.Status = "infeasible"
 		} else {
 			pr.Status = "inconclusive"
